@@ -266,7 +266,8 @@ def _show(e):
     if t == 'len':
         return f'len({_show(e[1])})'
     if t == 'agg':
-        return f"{e[1] if isinstance(e[1], str) else e[1][1] + '::' + e[1][2]}{{{', '.join(_show(a) for a in e[2])}}}"
+        tag = e[1] if isinstance(e[1], str) else '::'.join(str(x) for x in e[1][1:3])
+        return f"{tag}{{{', '.join(_show(a) for a in e[2])}}}"
     if t == 'down':
         return f'({_show(e[1])} as {e[2]})'
     if t == 'discr':
